@@ -440,6 +440,10 @@ CORPUS = [
     "from Reduino.Communication import SerialMonitor\nmon = SerialMonitor(9600)\nxs = [1, 2, 3]\nname = 'abc'\nk = 1\nmon.write(len(name) + len(xs) + xs[k])\nfor i in range(1, 3):\n    mon.write(i)\n",
     "from Reduino.Communication import SerialMonitor\nmon = SerialMonitor(9600)\nys = [i * 2 for i in range(3)]\nys.append(4)\nmon.write(len(ys))\nys = 5\n",
     "from Reduino.Communication import SerialMonitor\nmon = SerialMonitor(9600)\nzs = [1.5, 2.5]\nmon.write(zs[0])\ndef g(*args):\n    return 1\nmon.write(g(1))\nfor i in range(2, 9, 3):\n    pass\n",
+    # several calls of one untyped helper with different argument types inside one condition
+    "from Reduino.Communication import SerialMonitor\nmon = SerialMonitor(9600)\ndef scale(v):\n    return v * 2\ng = 2.5\nk = 0\nif scale(3) < scale(g):\n    mon.write(1)\nelif scale('a') == scale(k):\n    mon.write(2)\n"
+    "while scale(k) < scale(g) - 1:\n    k = k + 1\nmon.write(k)\n",
+    "from Reduino.Communication import SerialMonitor\nmon = SerialMonitor(9600)\ndef pick(a, b):\n    return a\nx = 1.5\nif pick(1, 2) < pick(x, 1) or pick(1, x) > pick(x, x):\n    mon.write(1)\n",
     # helpers whose return statements infer several different types (whatever the transpiler decides - a join, a default, an error - it decides
     # it the same way in every process)
     "from Reduino.Communication import SerialMonitor\nmon = SerialMonitor(9600)\ndef pick(c):\n    if c > 0:\n        return [1, 2]\n    return False\nv = pick(0)\nmon.write(v)\n",
